@@ -112,8 +112,16 @@ def gen_cases(rng, tier):
                 r = [cu, r[1], ct, r[3]]
             a = rng.choice(['1/1', '3/1', '5/2', '1/3', '999/1000', '-7/4', '0/1', '123456/1000'])
             kind = 'dec' if W.is_decimal(F(a)) and rng.random() < 0.6 else 'frac'
+            q = {'k': 'rate', 'o': o, 'x': ['q', [kind, a], u], 'r': r}
+            if rng.random() < 0.35:
+                # with a money converter registered that knows every currency (seeded C10-d:
+                # a non-matching currency must still be rejected, not converted first)
+                base = rng.choice(money)
+                q['conv'] = {'base': base,
+                             'rates': [[c, ['dec', rng.choice(['11/10', '17/20', '1623/10'])]]
+                                       for c in money if c != base]}
             cases.append({'dm': rng.choice(W.MODES), 'pre': False, 'script': script, 'hist': [],
-                          'q': {'k': 'rate', 'o': o, 'x': ['q', [kind, a], u], 'r': r}})
+                          'q': q})
     # boundary-directed: money amounts whose exact product / quotient lies as close
     # as arithmetically possible to a rounding tie of the target currency (a hidden
     # intermediate rounding flips the result there)
